@@ -13,6 +13,7 @@ pub fn build(family: &str, rng: &mut Rng, index: u64) -> Option<Plan> {
 		"F2" => f2(index),
 		"F2b" => f2b(index),
 		"F2h" => f2h(index),
+		"F2f" => f2f(index),
 		"F2s" => f2s(index),
 		"F6k" => f6k(index),
 		"F4" => Some(f4(rng, index)),
@@ -754,5 +755,20 @@ fn f1s(index: u64) -> Option<Plan> {
 	c.csr_digest = Some(["sha256", "sha384", "sha512"][(index % 3) as usize].to_string());
 	p.sched.net_us = (100, 500);
 	p.note = format!("F1s subject attribute subset {:015b}", index);
+	Some(p)
+}
+
+/// F2f: persistent errors: every request position x every error answer, repeated FOR EVER on that
+/// position.  Every attempt must still end in bounded time with its post-operation report; two
+/// attempts are observed.
+fn f2f(index: u64) -> Option<Plan> {
+	let kinds = error_kinds();
+	let g = grid(index, &[ALL_POSITIONS.len() as u64, kinds.len() as u64])?;
+	let (class, nth) = ALL_POSITIONS[g[0] as usize];
+	let mut p = grid_base(0, 2);
+	p.faults.push(Fault { site: "net".into(), ca: 0, class: class.into(), nth, count: 1_000_000_000, kind: kinds[g[1] as usize].clone(), ..Default::default() });
+	p.ops = vec![Op::Run { attempts: 2, max_virtual_s: 6000, only: vec![] }];
+	p.sched.max_events = 80_000;
+	p.note = format!("F2f {}#{} x {} for ever", class, nth, super::super::ca::fault_name(&kinds[g[1] as usize]));
 	Some(p)
 }
